@@ -16,7 +16,8 @@
 (*    ws              one whitespace keep-alive character                  *)
 (*    cl(piece)       piece of the close tag                               *)
 (* -- and in trace validation (FramingTrace) an atom is a BYTE of a        *)
-(* concrete corpus stream.  Both are described by the same record          *)
+(* concrete corpus stream.  Both are described by the same record (a       *)
+(* parameter of the actions, not a variable)                               *)
 (*    [n, elems, chars, sync]                                              *)
 (* n      number of atoms                                                  *)
 (* elems  the top-level elements in order, [k, e, to]: kind "hdr" |        *)
